@@ -49,6 +49,129 @@ def analyse_unit(path, maxq, names):
     return out
 
 
+DOC_BYTE_CLAUSES = [      # the clauses of the documentation the pairs of universe/u_conv.cc were transcribed from (re-checked on every run)
+    ('doc/Rule-Reference.md', '###### `eolf`', '[Equivalent] to `sor< eof, eol >`'),
+    ('doc/Rule-Reference.md', '###### `everything`', '[Equivalent] to `until< eof, any >`'),
+    ('doc/Rule-Reference.md', '###### `identifier_first`', "[Equivalent] to `ranges< 'a', 'z', 'A', 'Z', '_' >`"),
+    ('doc/Rule-Reference.md', '###### `identifier_other`', "[Equivalent] to `ranges< 'a', 'z', 'A', 'Z', '0', '9', '_' >`"),
+    ('doc/Rule-Reference.md', '###### `identifier`', '[Equivalent] to `seq< identifier_first, star< identifier_other > >`'),
+    ('doc/Rule-Reference.md', '###### `keyword< C... >`', '[Equivalent] to `seq< string< C... >, not_at< identifier_other > >`'),
+    ('doc/Rule-Reference.md', '###### `shebang`', "[Equivalent] to `if_must< string< '#', '!' >, until< eolf > >`"),
+    ('doc/Rule-Reference.md', '###### `two< C >`', '`ascii::two< C >::rule_t` is `internal::string< C, C >`'),
+    ('doc/Rule-Reference.md', '###### `three< C >`', '`ascii::three< C >::rule_t` is `internal::string< C, C, C >`'),
+    ('doc/Rule-Reference.md', '###### `forty_two< C... >`', '[Equivalent] to `rep< 42, one< C... > >`'),
+    ('doc/Rule-Reference.md', '###### `string< C... >`', '[Equivalent] to `seq< one< C >... >`'),
+    ('doc/Rule-Reference.md', '###### `ranges< C1, D1, C2, D2, ..., E >`', '[Equivalent] to `sor< range< C1, D1 >, range< C2, D2 >, ..., one< E > >`'),
+    ('doc/Contrib-and-Examples.md', '###### `<tao/pegtl/contrib/rep_string.hpp>`', 'optimised version of `rep< N, string< Cs... > >`'),
+    ('doc/Contrib-and-Examples.md', '###### `<tao/pegtl/contrib/rep_one_min_max.hpp>`', 'optimised version of `rep_min_max< Min, Max, ascii::one< C > >`'),
+]
+BYTE_LEAVES = ('string', 'istring', 'bytes', 'rep_one_min_max', 'eol', 'eolf', 'any', 'one', 'range', 'ranges', 'everything')
+
+
+def byte_impl_unit(db, u):
+    """B-impl: the instantiated match() of a hand-written byte-level rule against the meaning the type graph gives it"""
+    from .. import bits, typegraph
+    from ..spec import pegsets
+    from . import c06, c10
+    fn = db.get(u)
+    pol = c06.eol_of(fn); cls = fn['cls']
+    try:
+        e = typegraph.Translator(db, eol=pol).resolve(cls['s'])
+        sp = c10.space('be'); it = bits.Interp(db, sp)
+        st = bits.St(sp.full()); st.env[fn['params'][0]['id']] = bits.Opaque('input')
+        impl = {}
+        for kind, v, s in bits.outcomes(it, fn, st):
+            if kind == 'window': k = ('window', 0)
+            elif kind == 'return' and isinstance(v, bits.Val) and v.is_const(): k = ('ok', s.pos) if v.off else ('fail', 0)
+            else: raise bits.Unmodelled('path ends with %s' % kind)
+            if k[0] == 'fail' and s.pos: return {'probs': ['returns false with %d byte(s) consumed' % s.pos]}
+            impl[k] = sp.OR(impl.get(k), s.cond)
+        spec = pegsets.partition(sp, e)
+        probs = []
+        for ki, ci in impl.items():
+            for ks, cs in spec.items():
+                if ki == ks or 'window' in (ki[0], ks[0]): continue
+                both = sp.AND(ci, cs)
+                if both is not None:
+                    show = lambda k: 'matches %d byte(s)' % k[1] if k[0] == 'ok' else 'fails'
+                    probs.append('on %s the rule %s, its documented meaning %s (%d inputs)' % (c10.show_tuple(sp, sp.witness(both)), show(ki), show(ks), sp.count(both)))
+        return {'probs': probs[:4], 'classes': len(impl)}
+    except (bits.Unmodelled, bits.Blowup, typegraph.Unsupported) as ex:
+        return {'broken': str(ex)}
+
+
+def flatten(e):
+    """normal form of a byte-level expression: nested sequences / choices flattened, one-element ones dissolved"""
+    if not isinstance(e, tuple): return e
+    t = e[0]
+    if t in ('seq', 'sor'):
+        out = []
+        for x in e[1]:
+            x = flatten(x)
+            if isinstance(x, tuple) and x[0] == t: out.extend(x[1])
+            elif t == 'seq' and x == ('succ',): continue
+            else: out.append(x)
+        if len(out) == 1: return out[0]
+        if not out: return ('succ',) if t == 'seq' else ('fail',)
+        return (t, out)
+    if t in ('star', 'opt', 'at', 'not_at', 'must'): return (t, flatten(e[1]))
+    return e
+
+
+def byte_rules(R, tier):
+    """the byte-level rules of the property: (1) hand-written matchers against their formal meaning, exactly (BITS); (2) the
+    type graph of every convenience rule against the type graph of its documented expansion (LANG, prefix equivalence)"""
+    from .. import typegraph, lang
+    from . import c06
+    for f, head, clause in DOC_BYTE_CLAUSES:
+        try: text = open(os.path.join(core.REPO, f)).read()
+        except OSError: R.broke('%s not found' % f); continue
+        i = text.find(head)
+        j = text.find('\n######', i + 1)
+        if i < 0 or clause not in text[i:j if j > 0 else len(text)]: R.broke('the documentation no longer says "%s" under %s (%s)' % (clause, head, f))
+    # (1)
+    paths = core.extract(list(units.POS)); db = core.DB(paths)
+    items = []
+    for fn in db.order:
+        cls = fn.get('cls') or {}
+        if fn['n'] != 'match' or len(fn.get('params', [])) != 1 or c06.eol_of(fn) is None or not (cls.get('tn') or cls.get('q') or '').startswith(T + 'internal::'): continue
+        if (cls.get('tn') or cls.get('q'))[len(T + 'internal::'):] not in BYTE_LEAVES: continue
+        if 'peek_utf8' in (cls.get('s') or '') and 'result_on_found::failure' in cls['s']: continue      # negated UTF-8 sets: covered by C10 (the translator enumerates ranges)
+        items.append(fn['u'])
+    res = repo_units.map_items('sa.checks.c09', 'byte_impl_unit', paths, items)
+    nimpl = 0
+    for u in items:
+        fn = db.get(u); r = res[u]
+        name = '%s over eol::%s' % (fn['cls']['s'].replace(T, '').replace('internal::', '').replace('result_on_found::', ''), c06.eol_of(fn))
+        if r.get('broken'):
+            R.broke('%s: %s' % (name, r['broken'])); continue
+        nimpl += 1
+        R.ob(ok=not r['probs'], key=('byte-impl', name))
+        for pmsg in r['probs']: R.violation('B-impl', 'rule %s' % name.split(' over')[0], '%s: %s' % (name, pmsg), key=('B-impl', name, pmsg))
+    # (2)
+    cdb = core.DB(core.extract(list(units.CONV)))
+    npairs = 0
+    for k, r in sorted(cdb.records.items()):
+        if not k.startswith('vu::conv::eqv<'): continue
+        a = r.get('a') or []
+        if len(a) != 2: continue
+        name = a[0]['s'].replace(T, '')
+        try:
+            t = typegraph.Translator(cdb)
+            e1 = t.translate(a[0]['s']); e2 = typegraph.Translator(cdb).translate(a[1]['s'])
+            rr = {'mismatching_columns': 0, 'witnesses': [], 'columns': 0} if flatten(e1) == flatten(e2) else lang.compare_peg(e1, e2, name)
+        except (typegraph.Unsupported, lang.TooBig) as ex:
+            R.broke('cannot translate %s or its expansion: %s' % (name, ex)); continue
+        npairs += 1
+        R.ob(ok=not rr['mismatching_columns'], key=('byte-doc', name))
+        for w in rr['witnesses'][:2]:
+            R.violation('B-doc', 'rule %s' % name, 'on an input starting with %r the rule and its documented expansion %s differ (%s)' % (w[1], a[1]['s'].replace(T, ''), 'the rule matches a prefix the expansion does not' if w[2] else 'the expansion matches a prefix the rule does not'), key=('B-doc', name, w[1]))
+        if len(R.samples) < 11: R.sample({'rule': name, 'documented expansion': a[1]['s'].replace(T, ''), 'decided by': 'identical normal form' if not rr['columns'] else 'language engine, %d columns' % rr['columns']})
+    R.cov['byte_level_matchers_compared'] = nimpl; R.cov['byte_level_doc_pairs'] = npairs
+    if nimpl < 100: R.broke('only %d byte-level matchers compared (floor 100)' % nimpl)
+    if npairs < 20: R.broke('only %d documented byte-level equivalences compared (floor 20)' % npairs)
+
+
 def run(tier, prop='C09', names=C09_RULES, kinds=('E-result', 'E-rewind', 'E-dirty', 'E-R3'), floor=150):
     R = core.Result(prop, tier, level='model_checking')
     maxq = 8 if tier == 'quick' else 10
@@ -74,11 +197,12 @@ def run(tier, prop='C09', names=C09_RULES, kinds=('E-result', 'E-rewind', 'E-dir
                 R.sample({'rule': it['rule'].replace(T, ''), 'rewind_mode': it['mode'], 'documented expansion': it['expr'], 'answer histories compared': it['histories'], 'truncated at %d questions' % maxq: it['truncated']})
     R.cov['rule_instantiations_compared'] = n; R.cov['answer_histories'] = hist; R.cov['histories_truncated_at_bound'] = trunc; R.cov['max_distinct_questions'] = maxq
     R.cov['states'] = hist; R.cov['transitions'] = hist; R.cov['traces_validated_against_impl'] = hist
+    if prop == 'C09': byte_rules(R, tier)
     for nm in sorted(set(names) - covered): R.broke('no instantiation of %s was compared' % nm)
     if n < floor: R.broke('only %d rule instantiations compared (floor %d)' % (n, floor))
     R.assumptions = ['sub-rules are functions of (position, input): the same question always has the same answer (PEG formalism has no side effects)',
                      'answer histories are bounded by %d distinct questions (stated bound; at least two iterations of every loop)' % maxq,
-                     'byte-level rules of the property (eolf, keyword, identifier, shebang, string, two, three, forty_two, ranges, everything, rep_string, rep_one_min_max) are decided by the language engine, not here']
+                     'byte-level rules of the property (eolf, keyword, identifier, shebang, string, two, three, forty_two, ranges, everything, rep_string, rep_one_min_max): the hand-written matchers are compared exactly with the formal meaning of their rule type (sa/bits.py, five end-of-line policies), and the type graph of every rule with that of its documented expansion (language engine)']
     return R.finish(
         'Product of the implementation machine (linked abstract execution of the instantiated bodies) and the specification machine (PEG formalism on the documented expansion) under '
         'one lazily built answer oracle; compared on result, consumed prefix and identity of the raised rule for every answer history within the bound. The doc clauses the table was '
